@@ -123,8 +123,9 @@ def tla_constants(wb, pool, src, name, lists=(), settable=None, extends='Engine'
         elif kind == 'Lin':
             defs.append(f'{q(f)} :> [kind |-> "Lin", refs |-> {tla_seq(map(q, d[1]))}, '
                         f'coefs |-> {tla_seq(map(str, d[2]))}, shift |-> {d[3]}, b |-> {d[4] * scale}]')
-        elif kind == 'Cat':
-            defs.append(f'{q(f)} :> [kind |-> "Cat", ref |-> {q(d[1])}]')
+        elif kind in ('Cat', 'CatE'):
+            suf = 'x' if kind == 'Cat' else ''
+            defs.append(f'{q(f)} :> [kind |-> "Cat", ref |-> {q(d[1])}, suf |-> "{suf}"]')
         elif kind == 'SumR':
             defs.append(f'{q(f)} :> [kind |-> "SumR", rng |-> {q(d[1])}]')
         elif kind == 'Idx':
@@ -199,6 +200,8 @@ def formula_text(wb, f):
         return f'=({terms})/{2 ** d[3]}+{d[4]}'
     if d[0] == 'Cat':
         return f'={d[1]}&"x"'
+    if d[0] == 'CatE':
+        return f'={d[1]}&""'
     if d[0] == 'SumR':
         return f'=SUM({d[1]})'
     if d[0] == 'Idx':
@@ -263,6 +266,12 @@ WORKBOOKS = {
         inputs={'A1': 'a', 'A2': 1},
         formulas={'B1': ('Plus', ['A2'], 1), 'C1': ('Plus', ['A1', 'A2', 'B1'], 0),
                   'D1': ('Plus', ['A2'], 5), 'E1': ('Cat', 'C1')}),
+    # C01 stored results: B1 is the empty text while A1 is blank; a workbook
+    # stores that as <v></v>, which is read back as "no value"
+    'emptytext': dict(
+        inputs={'A1': None, 'A2': 1},
+        formulas={'B1': ('CatE', 'A1'), 'C1': ('Cat', 'B1'), 'D1': ('Plus', ['A2'], 1),
+                  'E1': ('Cat', 'D1')}),
     # C01 "written references (cells, ranges, names)": the formulas reach their
     # precedents through defined names (a range name and a cell name)
     'named': dict(
